@@ -212,6 +212,13 @@ func (c *faultCase) run() {
 						// after an error the connection may legitimately be behind; only complete answers are compared below
 						continue
 					}
+					if o != ref.outcomes[i] && c.cache > 0 && hasDuplicateKey(o) && c.st.known("F22") {
+						// F22 (dependency): with a node cache mast writes into node objects it shares through the
+						// cache; after a fault that no statement reports (a retire step, whose errors are ignored by
+						// design) the next refresh merges a version with its own parent and a key shows twice
+						c.st.Count("known_F22")
+						break
+					}
 					if o != ref.outcomes[i] {
 						c.fail(fmt.Sprintf("request %d fails (%s, persistent=%v): statement %d (%s) returns %q without error; the complete answer is %q", k, kind, persistent, i-1, stmtText(prog, i-1), o, ref.outcomes[i]))
 						break
@@ -276,6 +283,19 @@ func (c *faultCase) run() {
 	c.st.Distinct(strings.Join(c.log, "|"))
 }
 
+// hasDuplicateKey: a rendered answer ("rows:" + rows joined by " | ", key first) shows one key twice
+func hasDuplicateKey(o string) bool {
+	seen := map[string]bool{}
+	for _, row := range strings.Split(strings.TrimPrefix(o, "rows:"), " | ") {
+		k := strings.SplitN(row, ",", 2)[0]
+		if seen[k] {
+			return true
+		}
+		seen[k] = true
+	}
+	return false
+}
+
 func stmtText(p []fStmt, i int) string {
 	if i < 0 || i >= len(p) {
 		return "open"
@@ -289,10 +309,11 @@ func faultCmd(args []string) int {
 	n := fs.Int("n", 12, "programs")
 	outp := fs.String("out", "", "")
 	kn := fs.String("known", "", "")
+	withCache := fs.Bool("cache", false, "half of the programs run with node_cache_entries=1000")
 	fs.Parse(args)
 	setKnown(*kn)
 	st := NewStats("fault", *seed)
-	st.Rule = "SQL programs (open, 6-14 statements: inserts, range updates, deletes, scans, counts, s3db_refresh, close/re-open; buckets with one or two unmerged versions; entries_per_node in {2,4,4096}, node_cache_entries in {0,1000}) are first run fault-free, counting the object-store requests; then re-run from the same bucket with a fault at EVERY request index (every 2nd when > 120) x {transport error, expired context} x {single, persistent (every 3rd index)}; every statement before the first error must return the complete fault-free answer, an acknowledged INSERT must be visible to a later open, after the fault clears refresh + write + a new connection must work; each program runs in a child process with a time limit (panic / hang detection); distinct = distinct program (all non-trivial)"
+	st.Rule = "SQL programs (open, 6-14 statements: inserts, range updates, deletes, scans, counts, s3db_refresh, close/re-open; buckets with one or two unmerged versions; entries_per_node in {2,4,4096}, node_cache_entries in {0,1000} when run with -cache (the C14 check), else 0) are first run fault-free, counting the object-store requests; then re-run from the same bucket with a fault at EVERY request index (every 2nd when > 120) x {transport error, expired context} x {single, persistent (every 3rd index)}; every statement before the first error must return the complete fault-free answer, an acknowledged INSERT must be visible to a later open, after the fault clears refresh + write + a new connection must work; each program runs in a child process with a time limit (panic / hang detection); distinct = distinct program (all non-trivial)"
 	isChild, from, to := childRange()
 	if !isChild {
 		NewEmitter(*outp+".ops", *outp+".exp").Close()
@@ -307,6 +328,9 @@ func faultCmd(args []string) int {
 		r := root.Fork(i)
 		b, store := sqlh.Bucket()
 		c := &faultCase{st: st, r: r, id: fmt.Sprintf("fault-%d-%d", *seed, i), bucket: b, store: store, epn: gen.Pick(r, []int{2, 4, 4096}), cache: gen.Pick(r, []int{0, 1000})}
+		if !*withCache {
+			c.cache = 0
+		}
 		progressLine(fmt.Sprintf("CASE %d", i))
 		c.run()
 		st.Cases++
